@@ -1125,7 +1125,7 @@ func (self *AofChannel) HandleConsistencyBarrierCommand(aofLock *AofLock) {
 	self.aof.glock.Lock()
 	aofLock.Count--
 	if aofLock.Count == 0 {
-		go self.aof.rewriteAofFiles()
+		go self.aof.rewriteAofFilesBelow(aofLock.AofIndex, true)
 	}
 	self.aof.glock.Unlock()
 }
@@ -1274,12 +1274,11 @@ func (self *Aof) LoadAndInit() error {
 
 	_ = self.WaitFlushAofChannel()
 	if len(appendFiles) > 0 {
-		// the start-up compaction covers the files that have just been loaded; which ones is decided
-		// now, not when the goroutine gets to run: by then a follower may have rotated its log to files
-		// whose records are not applied yet, and they would be judged by a lock table that lags them
-		if aofFilenames, ferr := self.findRewriteAofFiles(); ferr == nil && len(aofFilenames) > 0 {
-			go self.rewriteAofFilesOf(aofFilenames)
-		}
+		// the start-up compaction covers the files that have just been loaded; where they end is
+		// decided now, not when the goroutine gets to run: by then a follower may have rotated its log
+		// to files whose records are not applied yet, and they would be judged by a lock table that
+		// lags them
+		go self.rewriteAofFilesBelow(self.aofFileIndex, true)
 	}
 	self.inited = true
 	self.slock.Log().Infof("Aof init finish")
@@ -1324,12 +1323,11 @@ func (self *Aof) Load() error {
 
 	_ = self.WaitFlushAofChannel()
 	if len(appendFiles) > 0 {
-		// the start-up compaction covers the files that have just been loaded; which ones is decided
-		// now, not when the goroutine gets to run: by then a follower may have rotated its log to files
-		// whose records are not applied yet, and they would be judged by a lock table that lags them
-		if aofFilenames, ferr := self.findRewriteAofFiles(); ferr == nil && len(aofFilenames) > 0 {
-			go self.rewriteAofFilesOf(aofFilenames)
-		}
+		// the start-up compaction covers the files that have just been loaded; where they end is
+		// decided now, not when the goroutine gets to run: by then a follower may have rotated its log
+		// to files whose records are not applied yet, and they would be judged by a lock table that
+		// lags them
+		go self.rewriteAofFilesBelow(self.aofFileIndex, true)
 	}
 	self.slock.Log().Infof("Aof load finish")
 	return nil
@@ -1740,7 +1738,10 @@ func (self *Aof) WaitFlushAofChannel() error {
 	}
 }
 
-func (self *Aof) ExecuteConsistencyBarrierCommand(commandType uint8) bool {
+// ExecuteConsistencyBarrierCommand queues a barrier behind everything the channels have been given;
+// when the last channel reaches it the log files below aofIndex are compacted (by then every record
+// of those files has been applied; later files may hold records that have not).
+func (self *Aof) ExecuteConsistencyBarrierCommand(commandType uint8, aofIndex uint32) bool {
 	channels := self.channels
 	count := uint16(len(channels))
 	if count == 0 {
@@ -1748,6 +1749,7 @@ func (self *Aof) ExecuteConsistencyBarrierCommand(commandType uint8) bool {
 	}
 	aofLock := NewAofLock()
 	aofLock.CommandType = commandType
+	aofLock.AofIndex = aofIndex
 	aofLock.Count = count
 	aofLock.HandleType = AOF_LOCK_TYPE_CONSISTENCY_BARRIER
 	for _, aofChannel := range channels {
@@ -2030,11 +2032,12 @@ func (self *Aof) WaitRewriteAofFiles() error {
 }
 
 func (self *Aof) rewriteAofFiles() {
-	self.rewriteAofFilesOf(nil)
+	self.rewriteAofFilesBelow(0, false)
 }
 
-// rewriteAofFilesOf compacts the given files, or, without a list, the files below the current one.
-func (self *Aof) rewriteAofFilesOf(aofFilenames []string) {
+// rewriteAofFilesBelow compacts the files below the given file index (bounded), or below the file
+// that is the current one when the compaction gets to run.
+func (self *Aof) rewriteAofFilesBelow(belowAofFileIndex uint32, bounded bool) {
 	self.glock.Lock()
 	if self.isRewriting || self.closed {
 		self.glock.Unlock()
@@ -2054,14 +2057,11 @@ func (self *Aof) rewriteAofFilesOf(aofFilenames []string) {
 		self.glock.Unlock()
 	}()
 
-	if aofFilenames == nil {
-		var err error
-		aofFilenames, err = self.findRewriteAofFiles()
-		if err != nil {
-			return
-		}
+	if !bounded {
+		belowAofFileIndex = self.aofFileIndex
 	}
-	if len(aofFilenames) == 0 {
+	aofFilenames, err := self.findRewriteAofFilesBelow(belowAofFileIndex)
+	if err != nil || len(aofFilenames) == 0 {
 		return
 	}
 
@@ -2079,6 +2079,11 @@ func (self *Aof) rewriteAofFilesOf(aofFilenames []string) {
 }
 
 func (self *Aof) findRewriteAofFiles() ([]string, error) {
+	return self.findRewriteAofFilesBelow(self.aofFileIndex)
+}
+
+// findRewriteAofFilesBelow lists the rewrite file and the append files below the given file index.
+func (self *Aof) findRewriteAofFilesBelow(belowAofFileIndex uint32) ([]string, error) {
 	appendFiles, rewriteFile, err := self.FindAofFiles()
 	if err != nil {
 		return nil, err
@@ -2094,8 +2099,8 @@ func (self *Aof) findRewriteAofFiles() ([]string, error) {
 			continue
 		}
 
-		if uint32(aofFileIndex) >= self.aofFileIndex {
-			if uint32(aofFileIndex)-self.aofFileIndex < 0x7fffffff {
+		if uint32(aofFileIndex) >= belowAofFileIndex {
+			if uint32(aofFileIndex)-belowAofFileIndex < 0x7fffffff {
 				continue
 			}
 		}
